@@ -124,6 +124,8 @@ class ModuleRef:
         q = f"{self.name}.{name}"
         if q in SPEC_CALLABLES:
             return SPEC_CALLABLES[q]
+        if q in SPEC_CONSTANTS:
+            return SPEC_CONSTANTS[q]
         raise Unsupported(f"external attribute {q}")
 
 
@@ -150,7 +152,11 @@ class _Spec:
 SPEC_CALLABLES = {
     "struct.pack": _Spec(struct.pack, "struct.pack"),
     "struct.calcsize": _Spec(struct.calcsize, "struct.calcsize"),
+    "struct.Struct": _Spec(struct.Struct, "struct.Struct"),
 }
+import pickle as _pickle_spec  # constants of the reader's side only; nothing is unpickled
+
+SPEC_CONSTANTS = {"pickle.HIGHEST_PROTOCOL": _pickle_spec.HIGHEST_PROTOCOL, "pickle.DEFAULT_PROTOCOL": _pickle_spec.DEFAULT_PROTOCOL, "sys.maxsize": __import__("sys").maxsize, "sys.byteorder": __import__("sys").byteorder}
 _BUILTIN_SPECS = {
     "repr": _Spec(repr, "repr"), "ascii": _Spec(ascii, "ascii"),
     "abs": _Spec(abs, "abs"), "divmod": _Spec(divmod, "divmod"), "hex": _Spec(hex, "hex"), "round": _Spec(round, "round"),
@@ -328,6 +334,8 @@ class ObjEval:
                 return FuncRef(self, lk)
             if q in SPEC_CALLABLES:
                 return SPEC_CALLABLES[q]
+            if q in SPEC_CONSTANTS:
+                return SPEC_CONSTANTS[q]
             if q in ("struct", "pickletools", "ast", "sys", "io", "re", "abc", "enum", "typing", "marshal", "pickle"):
                 return ModuleRef(q)
             if q.startswith("typing.") or q in ("abc.ABC", "abc.abstractmethod", "enum.Enum"):
@@ -481,6 +489,12 @@ class OEvaluator(Evaluator):
             raise PyRaise("AttributeError")
         if isinstance(v, tuple) and len(v) == 2 and v[0] == "enum-member" and attr in ("value", "name"):
             return v[1][attr]
+        if isinstance(v, struct.Struct):
+            if attr in ("pack", "unpack"):
+                return _Spec(getattr(v, attr), f"struct.Struct.{attr}")
+            if attr in ("size", "format"):
+                return getattr(v, attr)
+            raise Unsupported(f"attribute .{attr} of a struct.Struct")
         if isinstance(v, (str, bytes, int, list, dict, tuple, float)) and not isinstance(v, bool):
             return _PyMethod(v, attr)
         raise Unsupported(f"attribute .{attr} of a {type(v).__name__}")
@@ -739,6 +753,8 @@ class _PyType:
     def sa_attr(self, name):
         if name == "__name__":
             return self.t.__name__
+        if (self.t, name) in _PY_CLASSMETHODS:
+            return _Spec(getattr(self.t, name), f"{self.t.__name__}.{name}")
         raise Unsupported(f"attribute .{name} of type {self.t.__name__}")
 
     def __repr__(self):
@@ -755,6 +771,7 @@ class _ExcType:
         return Record("exception", {"name": self.name})
 
 
+_PY_CLASSMETHODS = {(int, "from_bytes")}
 _PY_METHODS = {
     str: {"encode", "split", "rsplit", "startswith", "endswith", "strip", "lstrip", "rstrip", "join", "format", "lower", "upper", "replace", "count", "isascii", "isdigit", "isalpha", "find", "rfind", "partition", "rpartition", "splitlines", "zfill", "isidentifier", "isprintable"},
     bytes: {"decode", "startswith", "endswith", "hex", "join", "replace", "find", "rstrip", "strip", "lstrip", "split", "count"},
